@@ -61,7 +61,7 @@ out.append("Observations recorded but deliberately not claimed as violations: `c
 out.append("### 8.4 Seeded changes (`/verif/seeded/<id>/`: patch.diff, demonstration, meta.json) and which check catches them\n")
 out.append("Each seed was written by a fresh sub-agent that saw only the property text and its own scratch worktree, then confirmed "
            "with `tools/try_seed.sh` (demonstration passes on HEAD, fails with the patch, in a scratch worktree) and run against the "
-           "quick tier of the property's check. `Cxx-1..4` are the first round; `Cxx-b1..b4` a second round (`Cxx-c1` a third, on nine properties) whose agents were given "
+           "quick tier of the property's check. `Cxx-1..4` are the first round; `Cxx-b1..b4` a second round (`Cxx-c1` a third, on twelve properties) whose agents were given "
            "the titles of the first round and asked for different mechanisms, code sites and parts of the statement. A seed the "
            "quick tier missed went back to the builder of that check with the request to add the missing *dimension* to the model "
            "and drivers (never a seed-specific test), and was evaluated again; the column shows the last evaluation "
